@@ -1025,6 +1025,10 @@ val hook_tags : char list -> node -> char list list
 
 val hook_sites : node -> (char list * (n * n)) list
 
+val is_ns_ident : node -> bool
+
+val ns_count : node -> nat
+
 val any_node : (node -> bool) -> node -> bool
 
 val static_path : node -> bool
@@ -1244,3 +1248,17 @@ val seq_order_issues :
   char list -> (char list * node) list -> node -> char list list
 
 val order_issues : char list -> node -> char list list
+
+val prop_ok : node -> bool
+
+val member_like_ok : node -> bool
+
+val target_ok : node -> bool
+
+val wf_node : node -> bool
+
+val wf_all : node -> bool
+
+val has_kind : kind -> node -> bool
+
+val has_optchain : node -> bool
